@@ -1,6 +1,7 @@
 """./check Cxx [--tier quick|thorough] [--replay FILE]"""
 import argparse
 import importlib
+import json
 import os
 import sys
 import traceback
@@ -49,19 +50,38 @@ def main():
         print(f'unknown or unclaimed property {pid}')
         return 2
     modname, tb = REGISTRY[pid]
+    replay = None
+    if args.replay:
+        # a replay file names the seed and tier of the run that produced it (all random choices derive from them) and the failing
+        # input or broken theorem/correspondence: the run is repeated and the same failure is looked for
+        import json
+        replay = json.load(open(args.replay))
+        seed = int(replay.get('seed', seed)); args.tier = replay.get('tier', args.tier)
     ctx = common.Ctx(pid, args.tier, seed)
     obl = common.check_obligations_multi([pid] + EXTRA_PROPS.get(pid, []), None)
     if args.tier == 'thorough' and not obl['problems']:
         obl = common.coqchk(pid, obl)
     try:
         mod = importlib.import_module(modname)
-        if args.replay:
-            mod.replay(ctx, args.replay)
-        else:
-            mod.run(ctx)
+        mod.run(ctx)
     except Exception as e:  # a crashing harness must not look like a pass
         traceback.print_exc()
         ctx.disagree('harness-crash', {'exception': repr(e)}, None, traceback.format_exc()[-2000:])
+    if replay is not None:
+        def same(a, b):
+            return json.dumps(a, sort_keys=True, default=str) == json.dumps(b, sort_keys=True, default=str)
+        if replay.get('kind') == 'failing-input':
+            hits = [v for v in ctx.violations if v['signature'] == replay.get('signature')]
+            exact = [v for v in hits if same(v['case'], replay.get('case'))]
+            print(f'REPLAY property={pid} signature={replay.get("signature")} reproduced={bool(exact)} same-signature-failures={len(hits)}')
+            if exact:
+                print('  ' + exact[0]['what'][:1500])
+            return 1 if exact else 0
+        names = {n for b in replay.get('broken', []) for n in b.get('names', [])}
+        now = {d['correspondence'] for d in ctx.disagreements} | {str(p_)[:200] for p_ in obl['problems']}
+        again = sorted(n for n in names if n in now)
+        print(f'REPLAY property={pid} broken={sorted(names)} still-broken={again} obligations={obl["discharged"]}/{obl["obligations"]}')
+        return 1 if (again or obl['problems']) else 0
     rc = common.finish(ctx, obl, tb)
     for p in obl['problems'][:5]:
         print('OBLIGATION-PROBLEM:', p[:2000])
